@@ -261,6 +261,51 @@ theorem C12_read (evs : List Event) (infoOf : Nat → ReqInfo)
             cases m <;> cases raises <;> simpa [methodWrites, alloc] using hp
   exact key evs {} hcons (fun _ h => by simp at h) (fun _ h => by simp at h)
 
+/-- **C12_client.**  What a client observes in `response_annotations` after a call is a function of
+    that call alone — its own handshake answer (if it had to connect) and its own reply — whatever
+    earlier calls left behind; it is the reply's annotations whenever the reply carries any. -/
+theorem C12_client (before before' : List Nat) (c : ClientCall) :
+    clientAfter before c = clientAfter before' c ∧
+    (∀ anns, c.reply = some anns → anns ≠ [] → clientAfter before c = anns) ∧
+    (∀ k ∈ clientAfter before c, (c.connects = true ∧ k ∈ c.handshakeAnns) ∨ ∃ anns, c.reply = some anns ∧ k ∈ anns) := by
+  refine ⟨rfl, ?_, ?_⟩
+  · intro anns hr hne
+    simp only [clientAfter, hr]
+    cases anns with
+    | nil => exact absurd rfl hne
+    | cons a as => simp
+  · intro k hk
+    simp only [clientAfter] at hk
+    cases hr : c.reply with
+    | none =>
+      rw [hr] at hk
+      simp only at hk
+      by_cases hc : (c.connects && !c.handshakeAnns.isEmpty) = true
+      · rw [if_pos hc] at hk
+        simp only [Bool.and_eq_true] at hc
+        exact Or.inl ⟨hc.1, hk⟩
+      · rw [if_neg hc] at hk; simp at hk
+    | some anns =>
+      rw [hr] at hk
+      simp only at hk
+      by_cases he : anns.isEmpty = true
+      · rw [if_pos he] at hk
+        by_cases hc : (c.connects && !c.handshakeAnns.isEmpty) = true
+        · rw [if_pos hc] at hk
+          simp only [Bool.and_eq_true] at hc
+          exact Or.inl ⟨hc.1, hk⟩
+        · rw [if_neg hc] at hk; simp at hk
+      · rw [if_neg he] at hk
+        exact Or.inr ⟨anns, rfl, hk⟩
+
+/-- over a whole sequence of calls: the k-th observation does not depend on what was there initially
+    nor (by the above) on earlier calls -/
+theorem C12_client_run (before before' : List Nat) (cs : List ClientCall) :
+    clientRun before cs = clientRun before' cs := by
+  induction cs generalizing before before' with
+  | nil => rfl
+  | cons c cs ih => simp only [clientRun]; rfl
+
 /-- **C12_gen_facts.**  Source facts: the call context is a `threading.local`; `handleRequest` and
     `_handshake` start from a fresh response-annotation dict; the normal reply resets it afterwards;
     the oneway thread receives a shallow copy of the context. -/
